@@ -17,11 +17,11 @@ CLAIMED = {
  "C09": dict(
    technique="property-based testing: exhaustive operand-pair enumeration with algebraic coherence laws and a three-valued reference model; rapid-generated and/or combinations",
    text="All ordered pairs of the plain-data universe (every kind, numeric width, Drops, pointers) under all nine operators in both directions and both forms are checked for: never an error, object form = if form, the coherence laws of the statement, and the value rules of a small reference model where the statement fixes the answer.",
-   note="Trusted: the reference comparison in harness/hx/model.go. Unspecified (not asserted): ordering of booleans/arrays/maps, equality of two different maps, string contains non-string, integers beyond 2^53 against floats. Go range values and ordered YAML maps are not comparison operands the statement speaks about and are left out of the universe.",
+   note="Trusted: the reference comparison in harness/hx/model.go. Unspecified (not asserted): ordering of booleans/arrays/maps, string contains non-string, integers beyond 2^53 against floats. Go range values and ordered YAML maps take part for the coherence laws only (the statement gives those for all operands, the value rules for nil, booleans, numbers, strings, arrays and maps); a bound slice and Go re-slices of it are compared in a list of their own.",
    ref="DESIGN.md 7.C09"),
  "C11": dict(
    technique="property-based testing: bounded-exhaustive loop grid with a trace oracle, multiset oracle for maps, and rapid-generated loop nestings against a reference interpreter",
-   text="The full grid of collection length x offset x limit x reversed x for/tablerow(cols) x break/continue position x else, over six collection representations and all small range endpoint pairs, renders a trace record per iteration that is compared with the reverse-skip-take model and the forloop formulas; maps are compared as multisets; random nestings with cycles and jumps are compared with the reference interpreter; cycle values that begin or end with white space must come out exactly beside hyphenated neighbours.",
+   text="The full grid of collection length x offset x limit x reversed x for/tablerow(cols) x break/continue position x else, over six collection representations and all small range endpoint pairs, renders a trace record per iteration that is compared with the reverse-skip-take model and the forloop formulas; maps are compared as multisets; random nestings with cycles and jumps are compared with the reference interpreter; cycle values that begin or end with white space must come out exactly beside hyphenated neighbours; break and continue inside capture / if / unless / case must act on the innermost enclosing loop.",
    note="Trusted: the reference interpreter (harness/hx/model.go) and the trace parser. Unspecified: negative offset/limit (only internal consistency of the trace is asserted), iteration order of maps, break inside tablerow (cell text only), two cycle tags of one group with different value lists.",
    ref="DESIGN.md 7.C11"),
  "C12": dict(
@@ -36,7 +36,7 @@ CLAIMED = {
    ref="DESIGN.md 7.C10"),
  "C08": dict(
    technique="property-based testing: exhaustive index grid, rapid-generated lookup paths and expression trees against a reference model, and three metamorphic relations (pipeline = assign decomposition, spacing invariance, strict = lax unless final nil)",
-   text="The array-length x index grid is swept completely; generated lookup paths over nested bindings and expression trees are compared with the reference model in normal and strict mode; every standard filter takes part in generated pipelines that must render exactly like their one-step-at-a-time assign decomposition; programs printed under two whitespace policies must render identically; unknown filters and excess arguments must be errors; a list of maps with string, integer, float and interface key types and an ordered map is indexed by keys of another kind, by numbers the key type cannot hold and by equal numbers of another width (a key is a key by its value).",
+   text="The array-length x index grid is swept completely; generated lookup paths over nested bindings and expression trees are compared with the reference model in normal and strict mode; every standard filter takes part in generated pipelines that must render exactly like their one-step-at-a-time assign decomposition; programs printed under two whitespace policies must render identically; unknown filters and excess arguments (five, and exactly one more than the filter takes) must be errors; a list of maps with string, integer, float and interface key types and an ordered map is indexed by keys of another kind, by numbers the key type cannot hold and by equal numbers of another width (a key is a key by its value).",
    note="Trusted: the reference lookup/printing model; the harness's filter arity table only steers generation (the relation itself is between two executions of the implementation). Unspecified: float indices, size of a string through property syntax, printing arrays/maps/ranges, exponent notation.",
    ref="DESIGN.md 7.C08"),
  "C15": dict(
@@ -83,12 +83,12 @@ CLAIMED = {
    category="fault_enumeration",
    technique="fault injection driven by property-based generation: for each rapid-generated program every write call k x {nothing accepted, strict prefix accepted} x {FRender, ParseAndFRender} x {the writer keeps failing, fails only that once} is failed with a sentinel writer; prefix, error-names-and-wraps-the-sentinel and stop-of-evaluation oracles",
    text="For every generated program (all tags, include, hyphens) the write calls of a fault-free render are enumerated and each one is failed in turn, in four modes and through both entry points: the call must return a non-nil SourceError whose message names and whose cause chain reaches the writer's error, never panic, the accepted bytes must be a prefix of the fault-free output, and counting filters show that evaluation stopped. Enumeration over k is exhaustive per program; programs are sampled.",
-   note="Trusted: the recording/fault writers and the counting filter. 'Stops' is asserted with one buffered write of slack (the trim writer holds the last write back) and at most one further Write call.",
+   note="Trusted: the recording/fault writers and the counting filter. 'Stops' is asserted with one buffered write of slack (the trim writer holds the last write back) and at most one further Write call, which must hand over the chunk that follows in the fault-free output; every other fault point fails with an error value of an unhashable type.",
    ref="DESIGN.md 7.C20"),
  "C14": dict(
    technique="property-based testing: metamorphic relation include = the selected content rendered on its own (capture) and inserted as a value, over rapid-generated include graphs laid out in temporary directories with per-file disk/cache/both/empty/missing states",
-   text="Generated include graphs (chains to depth 4, leaves in nested directories, equal base names with distinct content) with every file independently on disk, cache-only, in both with different content, zero bytes on disk, or missing, and include arguments spelled six ways, must render exactly like the template in which every include is replaced recursively by the content the statement selects; missing files, non-string arguments and errors inside included templates (also a break or continue outside every loop of the included file, with the include tag inside a loop) must fail the render without output.",
-   note="Trusted: the harness's inliner (disk over cache). Relative names are resolved against the directory of the path the rendered (top-level) template was parsed with, at every depth; a second top-level template in a sub-directory is rendered on the same engine for a third of the cases; variables assigned inside an included template are not probed afterwards; hyphenated tags and objects of the includer facing an include tag are generated (the included output is inserted exactly, as a value is); cached sources are sometimes registered under a path that is not in its shortest form. Temporary directories live under the run's scratch directory and are removed per case.",
+   text="Generated include graphs (chains to depth 4, leaves in nested directories, equal base names with distinct content) with every file independently on disk, cache-only, in both with different content, zero bytes on disk, or missing, and include arguments spelled six ways, must render exactly like the template in which every include is replaced recursively by the content the statement selects; missing files, non-string arguments and errors inside included templates (also a break or continue outside every loop of the included file, with the include tag inside a loop) must fail the render without output; cached source must be used when the file cannot be read for another reason than ENOENT, whatever the caller later does with the buffer it registered, and a file name of a named string type is a file name.",
+   note="Trusted: the harness's inliner (disk over cache). Relative names are resolved against the directory of the path the rendered (top-level) template was parsed with, at every depth; a second top-level template in a sub-directory is rendered on the same engine for a third of the cases; variables assigned inside an included template are not probed afterwards; hyphenated tags and objects of the includer facing an include tag are generated (the included output is inserted exactly, as a value is); cached sources are sometimes registered under a path that is not in its shortest form, and a file is sometimes deleted between registration and render. Temporary directories live under the run's scratch directory and are removed per case.",
    ref="DESIGN.md 7.C14"),
  "C02": dict(
    technique="property-based testing: identity relation over ~21 executions per generated case (entry points, re-parses, fresh engines, a fresh process, the command-line binary) with bindings re-realised in other insertion orders and at other addresses",
